@@ -228,6 +228,12 @@ def models(tier, tmpdir):
             sp = dict(sp0, workplaces=[dict(wp, wire_inputs="one-sided") for wp in sp0["workplaces"]], teams=[dict(tm, wire="ctor") for tm in sp0["teams"]])
             out.append((sp, {"rule": "TSLACK", "max_time": F.seq_bound(sp) + 8}, "one-sided-wiring"))
     out.append((F.shared_child_spec(), {"rule": "TSLACK", "max_time": 20}, "shared-child"))
+    out.append((F.team_hierarchy_spec(), {"rule": "TSLACK", "max_time": 12}, "hierarchy"))
+    out.append((F.idle_component_spec(), {"rule": "TSLACK", "max_time": 14}, "idle-component"))
+    for sp0 in F.fac_specs("quick"):
+        if sp0["label"] == "fac:2:per-task:one-cap2:plain:both":
+            sp = dict(sp0, workplaces=[dict(wp, cap="inf") for wp in sp0["workplaces"]])  # a workplace without space limit
+            out.append((sp, {"rule": "TSLACK", "max_time": 12}, "infinite-capacity"))
     for sp in F.same_name_task_specs()[:2]:
         out.append((sp, {"rule": "TSLACK", "max_time": 14}, "same-name"))
     # sub-project task, configured from a saved result and (second model) never configured
